@@ -19,7 +19,7 @@ import keyword
 import os
 import sys
 
-from vlib import bindlex, core, pygen, pyrun, symref
+from vlib import bindlex, core, layoutfuzz, pygen, pyrun, symref
 
 ID = "C20"
 READY = True
@@ -31,7 +31,7 @@ RULE = ("modules of pygen projects (<= 140 lines); cursor = every offset inside 
 ASSUMPTIONS = ["completeness is demanded only for names bound on earlier lines (what every reading of later_locals "
                "agrees on) and only outside lambda / comprehension / definition-header positions",
                "dotted completions are checked for clause 1 and 2 only"]
-BUDGET = {"quick": (140, 75), "thorough": (8000, 900)}
+BUDGET = {"quick": (80, 300), "thorough": (8000, 900)}
 EXHAUSTIVE = {}
 CASE_TIMEOUT = 900
 REQUIRE = {"assist_calls": 20000, "completeness_checked": 500, "definitions_checked": 300, "truncated_calls": 5000}
@@ -52,7 +52,8 @@ KEYWORDS = set(keyword.kwlist)
 def cases(tier, seed):
     i = 0
     while True:
-        yield {"seed": f"{seed}/C20/{i}", "pseed": seed * 1000003 + i + 900000}
+        # every second module is re-laid-out: line breaks with arbitrary (also smaller) indentation inside brackets
+        yield {"seed": f"{seed}/C20/{i}", "pseed": seed * 1000003 + i + 900000, "relayout": i % 2}
         i += 1
 
 
@@ -109,6 +110,15 @@ def run_case(spec):
         for path in paths[:1 if tier == "quick" else 3]:
             src = files[path]
             resource = project.get_file(path)
+            if spec.get("relayout"):
+                m = layoutfuzz.mutate(src, rnd, n_mutations=6, kinds=["bracket-newline"])
+                if m:
+                    m = m.replace("\t", "    ")      # continuation lines only (the generator writes no tabs)
+                if m and m != src:
+                    src = files[path] = m
+                    with open(os.path.join(root, path), "w", encoding="utf-8") as fh:
+                        fh.write(src)
+                    res.ev("modules_relaid_out")
             try:
                 model = symref.build(src)
                 if model.selfcheck() or model.has_star_import:
